@@ -604,3 +604,9 @@ M("C12", "first sparse term bypasses the coalescing sum", "kill",
     "            term = coeff * reduce(sparse_kron, single_qubit_gates)\n            accum_res = sparse_add(accum_res, term) if accum_res._nnz() > 0 else term")], "TABLES-terms")
 M("C27", "pending snapshot written to the system temp directory", "kill",
   [(IMPL, "        with open(basename.with_suffix(\".new\"), \"wb\") as file_handle:", "        import tempfile\n        with open(pathlib.Path(tempfile.gettempdir()) / basename.with_suffix(\".new\").name, \"wb\") as file_handle:")], "SAVE-window")
+M("C22", "PCHIP end slope kept for a flat end interval", "kill",
+  [(PT, "    mask_sign_change = torch.sign(d_end) != torch.sign(s_l)", "    mask_sign_change = d_end * s_l < 0")], "PCHIP-end")
+M("C22", "right end limited against the inner secant", "kill",
+  [(PT, "_limit_endpoint(dn, delta[-1], delta[-2])", "_limit_endpoint(dn, delta[-2], delta[-1])")], "PCHIP-end")
+M("C22", "twin: end slope zeroed with a non-strict product test", "twin",
+  [(PT, "    mask_sign_change = torch.sign(d_end) != torch.sign(s_l)", "    mask_sign_change = d_end * s_l <= 0")])
